@@ -1,7 +1,7 @@
 /* E5: C17 - lha_crc16_buf is CRC-16/ARC for every (state, byte), every (state, 2-byte buffer),
  * every length/alignment/split of four content families. */
 #include "common.h"
-#include "crc16.h"
+#include "lib/crc16.h"
 #include "ref_crc16.h"
 
 static uint8_t family_byte(int fam, size_t i)
